@@ -108,6 +108,15 @@ class Case:
                 if not ok:
                     ts = [qtn.Tensor(self._rand([dims[i] for i in t.inds], cplx).astype(dtype), inds=t.inds, tags=t.tags) for t in ts]
             self.tn = qtn.TensorNetwork(ts)
+        # tiny-amplitude family (double precision only): decided here because closing the network adds tensors
+        want_tiny = structured is None and np.dtype(dtype) in (np.dtype("float64"), np.dtype("complex128")) and r.random() < 0.18
+        if want_tiny and r.random() < 0.6:
+            # close the network with a vector on every dangling label: its value is then a single number
+            lab_ = sorted({i for t in self.tn.tensors for i in t.inds})
+            dang_ = [x for x in lab_ if sum(t.inds.count(x) for t in self.tn.tensors) == 1]
+            for q_, x in enumerate(dang_[:3]):
+                self.tn.add_tensor(qtn.Tensor(self._rand([self.tn.ind_size(x)], cplx).astype(dtype), inds=[x],
+                                              tags=["T%d" % (self.tn.num_tensors + 0), "ALL", "EVEN"]), virtual=True)
         self.exp10 = r.choice([0, 0, 0, 1, 2, -1, -2])
         self.tn.exponent = float(self.exp10)
         self.scale = max(0, -self.exp10)
@@ -116,7 +125,19 @@ class Case:
         net_json = [{"inds": list(inds), "shape": [int(d) for d in a.shape], "data": snap_garray(a)} for inds, a in self.net0]
         self.labels = sorted({i for inds, _ in self.net0 for i in inds})
         self.outer0 = [x for x in self.labels if sum(inds.count(x) for inds, _ in self.net0) == 1]
-        self.log({"ev": "new", "net": net_json, "exp10": self.exp10, "dtype": str(np.dtype(dtype)), "structured": structured or ""})
+        self.tiny = 0
+        if want_tiny and self.tn.num_tensors >= 1:
+            # tiny amplitudes: every tensor is scaled by 10^-k. The network still denotes (integer data) x 10^(exp10 - k*nt):
+            # that effective exponent is what the trace records, so every route's result is judged on the same lattice;
+            # what changes is the absolute size of the numbers the routes handle (absolute thresholds, realification)
+            nt_ = self.tn.num_tensors
+            self.tiny = r.choice([4, 5, 6, 7]) if r.random() < 0.4 else max(3, -(-r.choice([12, 13, 14, 15]) // nt_))
+            for t in self.tn.tensors:
+                t.modify(data=t.data * 10.0 ** (-self.tiny))
+            self.exp10 = self.exp10 - self.tiny * self.tn.num_tensors
+            self.scale = max(0, -self.exp10)
+        self.log({"ev": "new", "net": net_json, "exp10": self.exp10, "dtype": str(np.dtype(dtype)), "structured": structured or "",
+                  "tiny": self.tiny})
 
     def _rand(self, shape, cplx):
         nprng = np.random.default_rng(self.rng.randrange(1 << 30))
